@@ -450,6 +450,16 @@ func (fr *Frame) selectInstr(in *ssa.Select) Val {
 			}
 			// receiving from a nil channel never proceeds
 			vc.assume(fr.curR, fmt.Sprintf("(=> (= %s %d) (not (= %s 0)))", idx, i, ch))
+			// a channel that is only ever closed is ready exactly when it is closed
+			if u, ok := st.Chan.(*ssa.UnOp); ok {
+				if fa, ok := u.X.(*ssa.FieldAddr); ok {
+					T := fa.X.Type().Underlying().(*types.Pointer).Elem()
+					if vc.S.CloseOnly[vc.typeName(T)+"."+fieldName(T, fa.Field)] {
+						vc.note("channel " + vc.typeName(T) + "." + fieldName(T, fa.Field) + " is close-only (never sent on): ready iff closed")
+						vc.assume(fr.curR, fmt.Sprintf("(=> (= %s %d) (select %s %s))", idx, i, closed, ch))
+					}
+				}
+			}
 		}
 	}
 	out := Val{Typ: in.Type(), L: []string{idx, recvOk}}
